@@ -484,6 +484,9 @@ pub struct Case {
     pub probe_sleep_us: u32,
     /// Src::ConIterVec only: number of elements taken from the concurrent iterator before it is turned into a Par
     pub pre_consumed: usize,
+    /// operating-system fault: while the computation runs, the address-space limit of the process is lowered so that no
+    /// thread stack can be mapped - every attempt to create a worker thread fails
+    pub spawn_fail: bool,
 }
 
 impl Case {
